@@ -38,7 +38,9 @@ impl Findings {
         let mut open = Vec::new();
         for (n, line) in text.lines().enumerate() {
             let line = line.trim();
-            if line.is_empty() || line.starts_with("//") || line.starts_with('#') {
+            // `fixed: property=<id> <commit> <what failed>` lines document repaired defects;
+            // they suppress nothing.
+            if line.is_empty() || line.starts_with("//") || line.starts_with('#') || line.starts_with("fixed:") {
                 continue;
             }
             let v: Value = serde_json::from_str(line)
